@@ -5,7 +5,7 @@
     call expressions, sole returned expression). Regenerated on every run. *)
 From Coq Require Import List NArith Bool String.
 From Seccomp Require Import Words Result Machine Assembler Policy Tables Text TextProofs PolicyTop.
-From Gen Require Import GenTables GenArches GenNames GenStubs GenConsts.
+From Gen Require Import GenTables GenArches GenNames GenStubs GenConsts GenAmbient.
 From Oracle Require Import OracleConsts.
 Import ListNotations.
 Open Scope N_scope.
@@ -175,3 +175,27 @@ Proof.
   exists ai. split; [reflexivity|]. eapply get_info_ok_has_table. exact E.
 Qed.
 Print Assumptions C19_table_targets_resolve.
+
+
+(** The one thing about the build target that the compiler learns at RUN time is the machine's byte order (it decides which
+    half of an argument lies at the lower offset: C02_source_load_offsets). The probe is regenerated as data - the 16-bit
+    value stored at the start of a two-byte buffer and, per case of the switch over the buffer, the two bytes and the byte
+    order chosen - and evaluated here for both byte orders: a little-endian machine stores the low byte first and the probe
+    answers LittleEndian, a big-endian machine stores the high byte first and the probe answers BigEndian. (Only little-
+    endian builds can be run on this host; for the big-endian targets this theorem is what ties the layout to the code.) *)
+Definition stored_u16 (little:bool) (v:N) : N * N :=
+  if little then (v mod 256, v / 256) else (v / 256, v mod 256).
+Definition eval_probe (p : N * list (N * N * string)) (little:bool) : option string :=
+  let '(b0, b1) := stored_u16 little (fst p) in
+  match find (fun c => N.eqb (fst (fst c)) b0 && N.eqb (snd (fst c)) b1) (snd p) with
+  | Some c => Some (snd c)
+  | None => None
+  end.
+Theorem C19_byte_order_probe_is_right : exists p, endian_probe = Some p /\
+  fst p < 65536 /\ eval_probe p true = Some "LittleEndian"%string /\ eval_probe p false = Some "BigEndian"%string.
+Proof.
+  destruct endian_probe as [p|] eqn:E.
+  - exists p. split; [reflexivity|]. revert E. unfold endian_probe. intro E. injection E as <-. vm_compute. repeat split; reflexivity.
+  - exfalso. revert E. unfold endian_probe. discriminate.
+Qed.
+Print Assumptions C19_byte_order_probe_is_right.
